@@ -3,6 +3,8 @@
 
   `vexpr <rpn> <raw screen…>`     value of the tree: selection vector and every per-experiment attribute of the view
   `vscreen <rpn> <raw screen…>`   `to_screen()` of the value: the new screen and its rows
+  `uniq <col> <col> …`             `select_unique_zipped_numpy_arrays([col, col, …])`: the first-occurrence mask of the zipped rows
+                                  (`err:ValueError` for no column or columns of different lengths)
 
   `<rpn>`: tokens joined by `+` (`-` = no token):  `S<mask>` screen.subset, `F<mask>` subset of a foreign screen,
   `o` observed, `u` unobserved, `p<id>` plate, `s<mask>` nested subset of the top, `i` invert, `c` combine (second.combine(top)),
@@ -40,7 +42,23 @@ def showViewRows (r : Rows) : String :=
     ++ "|obs=" ++ showList toString "," r.obs ++ "|mask=" ++ showList showBool "," r.mask
     ++ "|tids=" ++ showList showIds ";" r.tids ++ "|sids=" ++ showIds r.sids ++ "|pids=" ++ showIds r.pids
 
+/-- the rows `np.vstack(arrs).T` of equally long columns -/
+def zipColumns (cols : List (List Int)) (n : Nat) : List (List Int) :=
+  (List.range n).map (fun i => cols.map (fun c => c[i]!))
+
+/-- `select_unique_zipped_numpy_arrays` -/
+def selectUnique : List (List Int) → Except Err (List Bool)
+  | [] => .error .valueError
+  | c :: rest =>
+    if rest.any (fun x => x.length != c.length) then .error .valueError
+    else .ok (uniqueMask (zipColumns (c :: rest) c.length))
+
 def handle : List String → Option String
+  | "uniq" :: cols => do
+      let cs ← cols.mapM parseIntList?
+      match selectUnique cs with
+      | .error err => pure (showErr err)
+      | .ok m => pure ("ok " ++ showList showBool "," m)
   | "vexpr" :: rpn :: rest => do
       let r ← parseRaw? rest
       let e ← parseRpn (if rpn == "-" then [] else rpn.splitOn "+") []
